@@ -52,6 +52,10 @@ CLAIMED = {
             "Enumeration of cut points crossed with seeded schedules: (a) per seed (= network behaviour and task schedule) a fixed reference conversation of a real client and a real listener (open, two sessions, an unsettled sender with three batchable sends - one multi-frame - and a plain send, a receiver taking two deliveries, dispositions, detach, close, two ends, close) is run once for every byte offset of either direction (0..=2000 client->listener, 0..=720 listener->client; the conversation is 1935 and 680 bytes long) and each of three cut kinds (EOF, reset, stall then EOF); the cut plan is the run's enumeration case, outside the choice stream, so all runs of a seed share their prefix. Both applications carry on with their scripts whatever each call returns. (b) per seed one run of a real client against a scripted peer that closes, ends, detaches (closing and non-closing) with or without an error after a seeded number of frames while the application has batchable sends, outcomes or a recv pending. Oracles: every call completes within a virtual deadline and nothing panics; data-path calls issued after the failure was certainly processed fail; late attach/begin errors name the stop; connection.close() returns Ok only if both close frames crossed the wire before the cut; the peer's error description is carried by every failing link operation (session/connection stop) or by the first link method that notices (detach), and by session.end()/connection.close(); all engine tasks of both endpoints have terminated at the end.",
             "Trusted: the simulator, refcodec. Exhaustive over offsets x kinds for the reference conversation per seed; the seeds (schedules, fragmentations) are sampled. A call that returns Ok after the cut is accepted when it raced the failure. The error-level check is by name of the error variants (Debug rendering).",
             "cut-point enumeration over a reference conversation + scripted peer-initiated stops; completion, error-content and task-termination oracles", "3 C14"),
+    "C15": ("exploration",
+            "Seeded search over victim side x endpoint state x hostile action x configuration x schedule: a real client or a real listener is brought by a scripted peer into one of four states (open only; session; session with a sender and a receiver link; links with a partial incoming delivery and two unsettled outgoing deliveries), optionally with the application's close under way, and the peer then does one hostile thing from a catalogue of 35 - ill-formed bytes (frame sizes 0..7, doff 0/1/3/200/255, unknown frame types, sizes beyond the endpoint's max-frame-size up to 2^32-1 with and without EOF, random bodies, 1-4 bit flips in valid frames, lists nested up to 20000 deep, truncation then EOF, unknown descriptors, wrong field types, extended headers, floods of empty frames, a SASL frame) and protocol violations (transfers beyond credit and beyond the session window, dispositions over ranges up to the whole sequence space and over unknown ids, flow/transfer/detach for unattached and huge handles, duplicate attach by name and by handle, frames on unmapped channels, begin on a channel in use or naming an unknown remote channel, second open, delivery-ids going backwards, continuation with another id, transfer without id, detach twice, end twice, flows with extreme values, transfer to a sender, frames after close) - and afterwards behaves well again. Oracles: no task panics, the worker does not abort, no task poll exceeds 20 s, no spin, every call the application then makes on every handle returns within a virtual deadline (data-path calls on a scope the endpoint shut down must fail), a connection left up still serves a fresh session, a shutdown with an error on the wire (or a dropped transport) is reported by some call and by connection.close(), all engine tasks of the attacked connection terminate, and a healthy client/listener pair running in the same process completes its six deliveries untouched.",
+            "Trusted: the simulator, refcodec. One hostile action per run. 'Work out of proportion' is decided by the per-poll stall watchdog (20 s of wall time; the defect found took 76 s) and the spin detector (200k steps without progress), not by a cost model. Sends on a link that is still up may stay pending for lack of credit (bounded, not judged).",
+            "catalogue of hostile byte strings and protocol violations crossed with endpoint states; crash / stall / hang / error-visibility oracles and an untouched bystander connection", "3 C15"),
     "C16": ("fault_enumeration",
             "Enumeration of drop points crossed with seeded schedules: a recv or send future of a real link (client side of a real client/listener pair) is polled k times and then dropped - right after its k-th poll returned Pending, or at the next wake-up before it is polled again. Enumerated variants: per seed (configuration incl. link->session channel capacity 1/2/3/8/2048, credit policy, auto-accept on/off, six messages of 1-4 frames at max-frame-size 512, optional link-level splitting, network behaviour, schedule) one run for every (operation j, k in 1..=12, drop mode); select-loop variants: every recv (two sends out of three) goes through a seeded cancel-and-retry loop with a ticker. Oracles: the deliveries returned by the completed recv calls are exactly the messages sent, in order, byte-equal after re-encoding, nothing afterwards, and the sending peer sees every delivery settled; on the send side every message whose send completed arrives, a cancelled message arrives at most once and intact, arrivals follow the sending order, the wire models (one delivery at a time per link, continuation frames consistent) hold, and every later send completes within a virtual deadline (not starved of credit).",
             "Trusted: the simulator, refcodec, observation hooks H4/H5 (used only to attribute a failure to a recorded finding). 'Every await point' is reached as 'every k until completion' under the seeded schedules and channel capacities; await points that only pend under conditions the workload does not create are not reached. Three genuine defects are recorded as known findings (DESIGN section 5); any failure outside their observed preconditions is reported.",
